@@ -17,6 +17,21 @@ Theorem C15_entries_in : forall transport svcs e,
 Proof. exact entries_in. Qed.
 Print Assumptions C15_entries_in.
 
+(* every service is listed once per client kind with its client class, whether or not it declares rpcs *)
+Theorem C15_clients_exact : forall transport svcs,
+  (forall s k c, In (s, k, c) (metadata_clients transport svcs) <->
+                 exists sv, In sv svcs /\ s_name sv = s /\ In (k, c) (kinds transport sv)) /\
+  (NoDup (map s_name svcs) -> NoDup (map (fun e => (fst (fst e), snd (fst e))) (metadata_clients transport svcs))).
+Proof. exact clients_exact. Qed.
+Print Assumptions C15_clients_exact.
+Example C15_clients_empty_service :
+  metadata_clients ["grpc"; "rest"] [mkS "Placeholder" []; mkS "Lib" [mkR "Get" false true []]] =
+  [("Lib", "grpc", "LibClient"); ("Lib", "grpc-async", "LibAsyncClient"); ("Lib", "rest", "LibClient");
+   ("Placeholder", "grpc", "PlaceholderClient"); ("Placeholder", "grpc-async", "PlaceholderAsyncClient");
+   ("Placeholder", "rest", "PlaceholderClient")].
+Proof. exact clients_empty_service. Qed.
+Print Assumptions C15_clients_empty_service.
+
 (* client kinds implied by the transports: grpc gives the sync and the async client, rest the sync client *)
 Theorem C15_kinds_spec : forall transport s k c,
   In (k, c) (kinds transport s) <->
